@@ -190,27 +190,13 @@ impl TryFrom<&str> for FeelDaysAndTimeDuration {
     if let Some(captures) = RE_DAYS_AND_TIME.captures(value) {
       let mut is_valid = false;
       let mut nanoseconds = 0_i128;
-      if let Some(days_match) = captures.name("days") {
-        if let Ok(days) = days_match.as_str().parse::<u64>() {
-          nanoseconds += (days as i128) * NANOSECONDS_IN_DAY;
-          is_valid = true;
-        }
-      }
-      if let Some(hours_match) = captures.name("hours") {
-        if let Ok(hours) = hours_match.as_str().parse::<u64>() {
-          nanoseconds += (hours as i128) * NANOSECONDS_IN_HOUR;
-          is_valid = true;
-        }
-      }
-      if let Some(minutes_match) = captures.name("minutes") {
-        if let Ok(minutes) = minutes_match.as_str().parse::<u64>() {
-          nanoseconds += (minutes as i128) * NANOSECONDS_IN_MINUTE;
-          is_valid = true;
-        }
-      }
-      if let Some(seconds_match) = captures.name("seconds") {
-        if let Ok(seconds) = seconds_match.as_str().parse::<u64>() {
-          nanoseconds += (seconds as i128) * NANOSECONDS_IN_SECOND;
+      // a component that is written but not representable makes the literal invalid, it is not left out
+      for (name, unit) in [("days", NANOSECONDS_IN_DAY), ("hours", NANOSECONDS_IN_HOUR), ("minutes", NANOSECONDS_IN_MINUTE), ("seconds", NANOSECONDS_IN_SECOND)] {
+        if let Some(component_match) = captures.name(name) {
+          match component_match.as_str().parse::<u64>() {
+            Ok(component) => nanoseconds += (component as i128) * unit,
+            Err(_) => return Err(invalid_date_and_time_duration_literal(value.to_string())),
+          }
           is_valid = true;
         }
       }
